@@ -103,6 +103,73 @@ def run_ptw(ctx, names, meta):
     return reqs, info
 
 
+CPTW = ["sin", "cos", "exp", "expm1", "sinh", "cosh", "tanh", "sigmoid", "reciprocal", "sqrt", "log", "log10", "log1p",
+        "power", "exponentiate", "tan", "arctan"]
+
+
+def cplx_grid(name, rng):
+    """complex arguments inside the principal-branch domain of a holomorphic table entry (away from cuts and poles)"""
+    re = [k / 4 for k in range(-8, 9)] + [rng.uniform(-2, 2) for _ in range(6)]
+    im = [-0.75, -0.25, 0.0, 0.125, 0.5, 0.875]
+    z = [complex(a, b) for a in re for b in im]
+    if name in ("sqrt", "log", "log10", "power"):
+        z = [w for w in z if w.real > 0.1]
+    elif name == "log1p":
+        z = [w for w in z if w.real > -0.8]
+    elif name == "reciprocal":
+        z = [w for w in z if abs(w) > 0.2]
+    elif name == "tan":
+        z = [w for w in z if abs(np.cos(w)) > 0.2]
+    elif name in ("tanh", "sigmoid"):
+        z = [w for w in z if abs(np.cosh(w)) > 0.2]
+    elif name == "arctan":
+        z = [w for w in z if abs(w.imag) < 0.9]
+    P = {"power": [[1.5], [-0.5], [2.0]], "exponentiate": [[0.5], [2.0]]}.get(name, [[]])
+    return z, P
+
+
+def run_ptw_complex(ctx, names):
+    """T2 on complex arguments: the generated definitions over `Cplx` vs ptw_dict on complex arrays"""
+    reqs, info = [], []
+    cb = lambda w: [X.f2b(complex(w).real), X.f2b(complex(w).imag)]
+    for n in CPTW:
+        if n not in names:
+            continue
+        z, P = cplx_grid(n, ctx.rng)
+        for p in P:
+            reqs.append(dict(op="ptwc", f=n, p=[cb(q) for q in p], v=[cb(w) for w in z]))
+            info.append((n, p, z))
+    return reqs, info
+
+
+def finish_ptw_complex(ctx, info, outs):
+    from nifty.cl.pointwise import ptw_dict
+    for (n, p, z), m in zip(info, outs):
+        case = dict(op="ptwc", f=n, p=p)
+        ctx.stat("ptwc:" + n)
+        ctx.case(case, nontrivial=True)
+        v = np.array(z, dtype=np.complex128)
+        try:
+            with np.errstate(all="ignore"):
+                val = np.asarray(ptw_dict[n][0](v.copy(), *p), dtype=np.complex128)
+                hval, der = ptw_dict[n][1](v.copy(), *p)
+        except Exception as e:
+            ctx.disagree(case, {"error": type(e).__name__}, "values", note="T2 complex ptw table")
+            continue
+        if "error" in m:
+            ctx.disagree(case, "values", m, note="T2 complex ptw table")
+            continue
+        for key, a in (("val", val), ("hval", np.asarray(hval, dtype=np.complex128)), ("der", np.asarray(der, dtype=np.complex128) + 0 * v)):
+            b = X.decc(m[key])
+            err = np.abs(a - b)
+            tol = 1e-10 * (1 + np.abs(b))
+            if np.any(~(err <= tol)):
+                i = int(np.argmax(np.where(np.isnan(err), np.inf, err - tol)))
+                ctx.disagree(dict(case, kind="ptwc"), f"{key}: at z={z[i]}: impl {a[i]!r} model {b[i]!r}",
+                             "generated Lean definition over Cplx", note=f"T2 complex ptw table entry {n}")
+                break
+
+
 def finish_ptw(ctx, info, outs):
     from nifty.cl.pointwise import ptw_dict
     for (n, p, g), m in zip(info, outs):
@@ -681,10 +748,12 @@ def run(ctx):
     ctodo = run_complex_model(ctx, cases)
     outs = []
     B = 1200
-    allreq = reqs + [e[2] for e in exact] + [t[2] for t in ctodo] + preqs
+    pcreqs, pcinfo = run_ptw_complex(ctx, names)
+    allreq = reqs + [e[2] for e in exact] + [t[2] for t in ctodo] + preqs + pcreqs
     for i in range(0, len(allreq), B):
         outs += ctx.model(DRIVER, allreq[i:i + B])
-    finish_ptw(ctx, pinfo, outs[len(allreq) - len(preqs):])
+    finish_ptw(ctx, pinfo, outs[len(allreq) - len(preqs) - len(pcreqs):len(allreq) - len(pcreqs)])
+    finish_ptw_complex(ctx, pcinfo, outs[len(allreq) - len(pcreqs):])
     for (c2, r, _), m in zip(exact, outs[len(reqs):len(reqs) + len(exact)]):
         compare_exact(ctx, {k: v for k, v in c2.items()}, r, m)
     finish_complex_model(ctx, ctodo, outs[len(reqs) + len(exact):])
